@@ -270,8 +270,10 @@ def ob_to_json(ob, with_smt=False):
     }
     if ob.detail:
         d["detail"] = ob.detail
+    if "mentions" in ob.meta:
+        d["mentions"] = ob.meta["mentions"]
     if with_smt:
-        d["goal"] = str(ob.goal)[:600]
+        d["goal"] = str(ob.goal)[:600] if ob.status != "proved" or ob.time_s < 0.5 else "(large goal, proved)"
         d["n_hyps"] = len(ob.hyps)
     if ob.status == "refuted":
         d["model"] = model_summary(ob.model)
